@@ -138,6 +138,10 @@ def pOp : P Op := fun ts => match ts with
       let o ← pNat; let box ← pBox; let pbc ← pCounted pBool
       let sy ← pOpt (pCounted pSym); let ms ← pOpt (pCounted pMass)
       pure (Op.mkSys o box pbc sy ms) : P Op) r
+  | "mksysx" :: r => (do
+      let o ← pNat; let box ← pBox; let pbc ← pCounted pBool
+      let sy ← pOpt (pCounted pSym); let ms ← pOpt (pCounted pMass); let sc ← pBool; let cp ← pBool
+      pure (Op.mkSysX o box pbc sy ms sc cp) : P Op) r
   | "symget" :: r => (do let i ← pNat; pure (Op.symbolsGet i) : P Op) r
   | "symset" :: r => (do let i ← pNat; let l ← pCounted pSym; pure (Op.symbolsSet i l) : P Op) r
   | "massget" :: r => (do let i ← pNat; pure (Op.massesGet i) : P Op) r
